@@ -74,7 +74,7 @@ pub fn judge_admitted(
         ));
     }
 
-    if model.unsettled.contains_key(&t.id) {
+    if model.unsettled.contains_key(&t.id) && !model.claim_released(&Key::Tx(t.id)) {
         let forgot = model.cache_forgot(&Key::Tx(t.id));
         out.push(adm(
             format!("c19 admitted_duplicate_id state=handed_out_or_preconfirmed cache_forgot={forgot}"),
@@ -131,7 +131,10 @@ pub fn judge_admitted(
         if !cfg.utxo_validation {
             continue;
         }
-        if let Some(holder) = model.handed_out_coin(u) {
+        if let Some(holder) = model
+            .handed_out_coin(u)
+            .filter(|_| !model.claim_released(&Key::Coin(*u)))
+        {
             let forgot = model.cache_forgot(&Key::Coin(*u));
             out.push(adm(
                 if forgot { "c19 admitted_handed_out_input cache_forgot=true".to_string() } else { "c19 admitted_handed_out_input kind=coin cache_forgot=false".to_string() },
@@ -227,7 +230,10 @@ pub fn judge_admitted(
 
     if cfg.utxo_validation {
         for m in &t.msgs {
-            if let Some(holder) = model.handed_out_msg(&m.nonce) {
+            if let Some(holder) = model
+                .handed_out_msg(&m.nonce)
+                .filter(|_| !model.claim_released(&Key::Msg(m.nonce)))
+            {
                 let forgot = model.cache_forgot(&Key::Msg(m.nonce));
                 out.push(adm(
                     if forgot { "c19 admitted_handed_out_input cache_forgot=true".to_string() } else { "c19 admitted_handed_out_input kind=message cache_forgot=false".to_string() },
